@@ -80,7 +80,8 @@ impl Buffer {
     }
     #[inline]
     pub fn get_bookmark(&self) -> usize {
-        self.bookmark - self.pos
+        // No bookmark is set when the message carries no auth parameters
+        self.bookmark.saturating_sub(self.pos)
     }
     #[inline]
     pub fn skip(&mut self, size: usize) {
